@@ -230,6 +230,49 @@ theorem no_stale (B : Bounds) (vals : Vals V) (g : Grid V) (r c : Nat) (res : Re
   let ⟨k, w, h, v', h1, h2, _⟩ := (evalDyn_inv B vals g r c res hinv).spillOk i j ar ac v hs
   ⟨k, w, h, v', h1, h2⟩
 
+def bEx0 : Bounds := ⟨1048576, 16384⟩
+def valsEx0 : Vals Nat := ⟨1001, 1002⟩
+
+/-! ### the full statement fails across one evaluation pass (finding F31a) -/
+
+/-- the full statement for a pass over two anchors: an anchor that shows #SPILL! after the pass
+    has a blocked (or out-of-grid) block in the sheet as it is after the pass -/
+def C31_full : Prop :=
+  ∀ (g : Grid Nat), SpillInv bEx0 g → ∀ (r c r' c' : Nat) (a : Arr Nat) (res' : Result Nat),
+    1 ≤ a.h → 1 ≤ a.w →
+    let g' := evalDyn bEx0 valsEx0 (evalDyn bEx0 valsEx0 g r c (.array a)) r' c' res'
+    g' r c = .anchor .dyn 1 1 valsEx0.spillErr →
+    (outOfGrid bEx0 r c a.h a.w = true ∨ blocked g' r c a.h a.w = true)
+
+/-- C1 and B2 hold dynamic formulas -/
+def gW0 : Grid Nat := set (set (fun _ _ => .empty) 2 2 (.anchor .dyn 1 1 0)) 1 3 (.anchor .dyn 1 1 0)
+
+theorem gW0_inv : SpillInv bEx0 gW0 := by
+  have h0 : SpillInv bEx0 (fun _ _ => (GCell.empty : GCell Nat)) :=
+    ⟨fun _ _ _ _ _ h => (by cases h), fun _ _ _ _ _ h => (by cases h)⟩
+  have h1 := set_simple_inv bEx0 _ 2 2 (.anchor .dyn 1 1 0) h0 (by decide)
+    (Or.inr (Or.inr (Or.inr ⟨0, rfl⟩))) (fun _ _ _ h => (by cases h)) (fun _ _ _ h => (by cases h))
+  exact set_simple_inv bEx0 _ 1 3 (.anchor .dyn 1 1 0) h1 (by decide)
+    (Or.inr (Or.inr (Or.inr ⟨0, rfl⟩))) (fun _ _ _ h => by simp [set] at h)
+    (fun i j v h => by
+      simp only [set] at h
+      split at h
+      · cases h
+      · cases h)
+
+/-- the sheet after a first evaluation in which B2 spilled into C2 -/
+def gW : Grid Nat := evalDyn bEx0 valsEx0 gW0 2 2 (.array ⟨1, 2, fun _ _ => 0⟩)
+
+/-- F31a.  C1 (evaluated first, natural order) wants C1:C3 and finds B2's old spill in C2, so it
+    shows #SPILL!; B2 is evaluated next, now yields a single value and frees C2.  After the pass
+    C1 shows #SPILL! although nothing blocks it.  (The real engine does the same.) -/
+theorem C31_full_false : ¬ C31_full := by
+  intro h
+  have hinv : SpillInv bEx0 gW := evalDyn_inv bEx0 valsEx0 gW0 2 2 _ gW0_inv
+  have := h gW hinv 1 3 2 2 ⟨3, 1, fun _ _ => 0⟩ (.scalar 0) (by decide) (by decide) (by decide)
+  revert this
+  decide
+
 /-! ### non-vacuity: a concrete sheet -/
 
 /-- B1 = dynamic anchor currently 1×3 (B1:B3), B4 = user value, D1 = dynamic anchor 1×1 -/
